@@ -30,6 +30,12 @@ def index (s sub : Bytes) : Option Nat :=
 /-- `strings.Contains s sub`. -/
 def contains (s sub : Bytes) : Bool := (index s sub).isSome
 
+/-- `strings.SplitN s sep 2 [0]` for non-empty `sep`: the part of `s` before the first `sep` (all of `s` if none). -/
+def beforeSep (s sep : Bytes) : Bytes :=
+  match index s sep with
+  | none => s
+  | some i => s.take i
+
 /-- `strings.Replace s old new 1` for non-empty `old`. -/
 def replaceFirst (s old new : Bytes) : Bytes :=
   match index s old with
